@@ -27,7 +27,7 @@ pub proof fn lemma_burn_end_num(s: Seq<u8>, i: int, e: int)
 {
     if i < s.len() && is_numch(s[i]) { lemma_burn_end_num(s, i + 1, e); }
 }
-pub open spec fn lit_at(s: Seq<u8>, p: int, l: Seq<u8>) -> bool { 0 <= p && p + l.len() <= s.len() && s.subrange(p, p + l.len()) == l }
+pub open spec fn lit_at(s: Seq<u8>, p: int, l: Seq<u8>) -> bool { 0 <= p && p + l.len() <= s.len() && s.subrange(p, p + l.len()) =~= l }
 pub open spec fn lit_true() -> Seq<u8> { seq![0x74u8, 0x72u8, 0x75u8, 0x65u8] }
 pub open spec fn lit_false() -> Seq<u8> { seq![0x66u8, 0x61u8, 0x6cu8, 0x73u8, 0x65u8] }
 pub open spec fn lit_null() -> Seq<u8> { seq![0x6eu8, 0x75u8, 0x6cu8, 0x6cu8] }
@@ -166,4 +166,12 @@ pub proof fn lemma_wsc_unique(s: Seq<u8>, a: int, r: int, t: int)
     ensures r == t
 {
     if r < t { assert(is_wsc(s[r])); } else if t < r { assert(is_wsc(s[t])); }
+}
+// after an element (array) or member (object) that ends at c: a comma and the rest, or the closing bracket `close`
+pub open spec fn cont_ok_at(s: Seq<u8>, c: int, ee: int, close: u8, obj: bool) -> bool {
+    let e2 = ws_end(s, c);
+    &&& 0 <= e2 < s.len()
+    &&& (s[e2] == 0x2C || s[e2] == close)
+    &&& s[e2] == 0x2C ==> (if obj { jobj(s, ws_end(s, e2 + 1), false) == Some(ee) } else { jarr(s, ws_end(s, e2 + 1), false) == Some(ee) })
+    &&& s[e2] == close ==> ee == e2 + 1
 }
